@@ -34,7 +34,7 @@ RULE = ("specific-yield parameter sets of both kinds x increasing grids inside, 
         "datasets; non-trivial = grid of at least 3 levels; distinct by (parameters, grid)")
 
 
-def check_sy_is_the_parameter_sets(ctx, sy, params, grid, inp):
+def check_sy_is_the_parameter_sets(ctx, sy, params, grid, inp, oracle="c17Holds", what="the simulated storage"):
     """PEATCLSM parameter sets: the function that is integrated is the one the parameters define (model
     peatclsmKnots/pwl at Float, as in C16), whatever was constructed earlier in the process."""
     from . import c16
@@ -53,9 +53,9 @@ def check_sy_is_the_parameter_sets(ctx, sy, params, grid, inp):
     bad = [(x, g, r) for x, g, r in zip(xs, got, ref) if abs(g - r) > 1e-9 * max(1.0, abs(r))]
     ctx.obligation(ob, not bad)
     if bad:
-        ctx.violation("impl-violation", "c17Holds", {"input": inp, "impl": got, "model": ref, "oracle": {
-            "name": "c17Holds", "result": False,
-            "witness": {"why": "the simulated storage is the integral of a specific yield other than the parameter set's",
+        ctx.violation("impl-violation", oracle, {"input": inp, "impl": got, "model": ref, "oracle": {
+            "name": oracle, "result": False,
+            "witness": {"why": "%s is the integral of a specific yield other than the parameter set's" % what,
                         "level_mm": bad[0][0], "specific_yield_used": bad[0][1], "specific_yield_of_parameters": bad[0][2]}}})
     return not bad
 
@@ -71,6 +71,7 @@ def check_curve(ctx, sy, grid, mean, inp):
     if "parameters" in inp and not check_sy_is_the_parameter_sets(ctx, sy, inp["parameters"], grid, inp):
         return [float(v) for v in sr.compute_rise_curve(sy, np.array(grid, dtype=float), mean)]
     g = common.any_layout(ctx.rng, np.array(grid, dtype=float))
+    snap_g = common.snapshot(g)
     with sim.record_integrate(sy) as calls:
         sim.dirty_heap(ctx.rng, len(g))
         W = [float(v) for v in sr.compute_rise_curve(sy, g, mean)]
@@ -79,7 +80,7 @@ def check_curve(ctx, sy, grid, mean, inp):
         mean = 0.0
     elif mean == 0.0:
         ctx.count("curves_with_mean_exactly_zero")
-    if not common.same_as_snapshot(g, np.array(grid, dtype=float)):
+    if not common.same_as_snapshot(g, snap_g):
         ctx.violation("impl-violation", "c17Holds", {"input": inp, "impl": [float(v) for v in g], "oracle": {
             "name": "c17Holds", "result": False, "witness": {"why": "the caller's grid of levels was modified by compute_rise_curve"}}})
         return W
@@ -147,6 +148,8 @@ def run(ctx):
                     "beyond": (hi + 1.0, hi + 0.5 * span)}[kind]
             n = rng.randint(3, 25)
             grid = sorted({round(rng.uniform(a, b), 1) for _ in range(n)})
+            if rng.random() < 0.3 and int(a) + 3 < int(b):
+                grid = sorted({float(rng.randint(int(a) + 1, int(b) - 1)) for _ in range(n)})        # levels in whole millimetres
             if len(grid) < 2:
                 continue
             mean = rng.choice([rng.uniform(-50, 50), rng.uniform(-50, 50), 0.0, None, float(rng.randint(-3, 3)), 10 ** rng.uniform(-12, 3)])
